@@ -1,2 +1,123 @@
+(* C13 witnesses: refutations of the full statement on the faithful model (each is a history
+   that the implementation replays identically, see findings/C13-*.json) and non-vacuity
+   examples for the hypotheses of the theorems. *)
 From Coq Require Import ZArith List String Bool Arith.
-From PAFC13 Require Import Model Proofs.
+From PAFC13 Require Import Model Proofs1 Proofs2 Proofs3.
+Import ListNotations.
+Open Scope string_scope.
+Open Scope list_scope.
+
+Definition cls0 : list (list string) := [["a"; "b"]; ["a"; "b"; "c"]; ["pos"; "w"]; ["x"]].
+Definition pri0 : list (nat * (Z * Z)) := map (fun p => (p, (0, 10)%Z)) (seq 0 8).
+Definition cfg_pinned : config := mkConfig cls0 pri0 wrapper_cleanup.
+Definition cfg_repaired : config := mkConfig cls0 pri0 true.
+
+Definition leaf_model (p q : nat) : op := ONew (KModel 0) [("a", VPrior p); ("b", VPrior q)] 0.
+
+(* 1. a failing call poisons the recursion cache: the next query raises TypeError, a parent
+      silently loses the child *)
+Definition h_poison : list op :=
+  [leaf_model 0 1; leaf_model 2 3; ONew KColl [("m", VRef 0); ("n", VRef 1)] 0; OFailWalk 0].
+
+Lemma poison_self : snd (run cfg_pinned (h_poison ++ [OQuery 0 QCount]) init)
+                    = snd (run cfg_pinned h_poison init) ++ [Exn ETypeError].
+Proof. vm_compute. reflexivity. Qed.
+Lemma poison_parent : snd (run cfg_pinned (h_poison ++ [OQuery 2 QCount]) init)
+                      = snd (run cfg_pinned h_poison init) ++ [Ok (ANat 0)].
+Proof. vm_compute. reflexivity. Qed.
+Lemma poison_fresh : snd (run_query cfg_pinned 2 QCount (fresh (fst (run cfg_pinned h_poison init)))) = Ok (ANat 4).
+Proof. vm_compute. reflexivity. Qed.
+
+Lemma refuted_failing_call : ~ coherent_everywhere cfg_pinned.
+Proof.
+  intros H. specialize (H h_poison 2 QCount). rewrite poison_parent, poison_fresh in H.
+  apply app_inv_head in H. discriminate.
+Qed.
+
+(* the same history on the repaired wrapper *)
+Lemma repaired_poison : guardedb cfg_repaired h_poison init = true
+  /\ snd (run cfg_repaired (h_poison ++ [OQuery 2 QCount]) init) = snd (run cfg_repaired h_poison init) ++ [Ok (ANat 4)].
+Proof. split; vm_compute; reflexivity. Qed.
+
+(* 2. a child shared by two parents is unfrozen through the second parent: the first parent
+      stays frozen and keeps answering from the old composition *)
+Definition h_stale : list op :=
+  [leaf_model 0 1; ONew KColl [("m", VRef 0)] 0; ONew KColl [("m", VRef 0); ("n", VPrior 2)] 0;
+   OFreeze 1; OFreeze 2; OQuery 1 QCount; OUnfreeze 2; OSet 0 "e" (VPrior 3)].
+
+Lemma stale_answer : snd (run cfg_repaired (h_stale ++ [OQuery 1 QCount]) init)
+                     = snd (run cfg_repaired h_stale init) ++ [Ok (ANat 2)].
+Proof. vm_compute. reflexivity. Qed.
+Lemma stale_fresh : snd (run_query cfg_repaired 1 QCount (fresh (fst (run cfg_repaired h_stale init)))) = Ok (ANat 3).
+Proof. vm_compute. reflexivity. Qed.
+
+(* refuted even for the repaired wrapper: this finding is independent of the first *)
+Lemma refuted_stale_ancestor : ~ coherent_everywhere cfg_repaired.
+Proof.
+  intros H. specialize (H h_stale 1 QCount). rewrite stale_answer, stale_fresh in H.
+  apply app_inv_head in H. discriminate.
+Qed.
+
+(* 3. TuplePrior is not freezable *)
+Definition h_tuple : list op :=
+  [ONew KTuple [("pos_0", VPrior 0); ("pos_1", VConst 2)] 0; ONew (KModel 2) [("pos", VRef 0); ("w", VPrior 1)] 0;
+   OFreeze 1; OQuery 1 QCount; OSet 1 "pos_1" (VPrior 2); OSet 0 "pos_1" (VPrior 2)].
+
+Lemma tuple_outcomes : snd (run cfg_repaired (h_tuple ++ [OQuery 1 QCount]) init)
+  = [Ok AUnit; Ok AUnit; Ok AUnit; Ok (ANat 2); Exn EAssertion; Ok AUnit; Ok (ANat 2)].
+Proof. vm_compute. reflexivity. Qed.
+Lemma tuple_fresh : snd (run_query cfg_repaired 1 QCount (fresh (fst (run cfg_repaired h_tuple init)))) = Ok (ANat 3).
+Proof. vm_compute. reflexivity. Qed.
+
+(* 4. delattr is not guarded *)
+Definition h_del : list op := [leaf_model 0 1; OFreeze 0; OQuery 0 QCount; ODel 0 "a"].
+Lemma del_outcomes : snd (run cfg_repaired (h_del ++ [OQuery 0 QCount]) init)
+  = [Ok AUnit; Ok AUnit; Ok (ANat 2); Ok AUnit; Ok (ANat 2)].
+Proof. vm_compute. reflexivity. Qed.
+Lemma del_fresh : snd (run_query cfg_repaired 0 QCount (fresh (fst (run cfg_repaired h_del init)))) = Ok (ANat 1).
+Proof. vm_compute. reflexivity. Qed.
+
+(* none of the four satisfies the guard (so the partial theorem excludes exactly these) *)
+Lemma witnesses_unguarded :
+  guardedb cfg_pinned h_poison init = false /\ guardedb cfg_repaired h_stale init = false /\
+  guardedb cfg_repaired h_tuple init = false /\ guardedb cfg_repaired h_del init = false.
+Proof. repeat split; vm_compute; reflexivity. Qed.
+
+(* ------------------------------------------------------------------ non-vacuity *)
+(* a guarded history of the pinned configuration with freeze, cached queries, a rejected and an
+   accepted modification, unfreeze, copy and several live models *)
+Definition h_good : list op :=
+  [leaf_model 0 1; leaf_model 2 3; ONew KColl [("m", VRef 0); ("k", VConst 3)] 0;
+   OFreeze 2; OQuery 2 QCount; OQuery 2 QInfo; OSet 0 "e" (VPrior 4); OSet 1 "a" (VConst 5);
+   OQuery 2 (QInstance [1; 2]%Z); OCopy 2; OUnfreeze 2; OSet 0 "b" (VPrior 2); OAppend 2 (VRef 1);
+   OFreeze 2; OQuery 2 QPaths; OQuery 2 QCount; OQuery 3 QCount].
+
+Example good_is_guarded : guarded cfg_pinned h_good init.
+Proof. apply guardedb_sound. vm_compute. reflexivity. Qed.
+
+Example good_outcomes :
+  map (fun r => match r with Ok (ANat n) => Some n | _ => None end)
+      (snd (run cfg_pinned h_good init))
+  = [None; None; None; None; Some 2; None; None; None; None; None; None; None; None; None; None; Some 3; Some 2].
+Proof. vm_compute. reflexivity. Qed.
+
+Example frozen_rejects_hypotheses :
+  let st := fst (run cfg_pinned [leaf_model 0 1; OFreeze 0] init) in
+  exists ob, get st 0 = Some ob /\ okind ob <> KTuple /\ ofrozen ob = true.
+Proof. eexists. split; [vm_compute; reflexivity|]. split; [discriminate|reflexivity]. Qed.
+
+Example inv_holds_somewhere_frozen :
+  let st := fst (run cfg_pinned [leaf_model 0 1; OFreeze 0; OQuery 0 QCount] init) in
+  Inv st /\ exists ob, get st 0 = Some ob /\ ocache ob <> [].
+Proof.
+  split.
+  - apply (guarded_ok cfg_pinned [leaf_model 0 1; OFreeze 0; OQuery 0 QCount] init Inv_init eq_refl).
+    apply guardedb_sound. vm_compute. reflexivity.
+  - eexists. split; [vm_compute; reflexivity|]. discriminate.
+Qed.
+
+Example agree_nonvacuous :
+  let st := fst (run cfg_pinned [leaf_model 0 1; leaf_model 2 3] init) in
+  let st' := fst (run cfg_pinned [leaf_model 0 1; leaf_model 2 3; OSet 1 "a" (VConst 7)] init) in
+  quiet st st' /\ comp_at st' 1 <> comp_at st 1.
+Proof. split; [apply quietb_sound; vm_compute; reflexivity|vm_compute; discriminate]. Qed.
